@@ -66,7 +66,7 @@ fn worker_loop(rx: Receiver<Job>, tx: Sender<Done>) {
 
 #[derive(Clone, Debug)]
 struct Mix {
-    name: &'static str,
+    name: String,
     cfgs: Vec<Cfg>,
     /// end-of-stream scripts: `P PP(5)` then `PP(-)` (partial call with 5 frames, then a flush)
     partial: bool,
@@ -94,41 +94,111 @@ fn mixes() -> Vec<Mix> {
     let xi = Cfg::fft(Kind::XI, 2, 3, 32, 2).with_channels(2);
     let xo = Cfg::fft(Kind::XO, 2, 3, 48, 2).with_channels(2);
     let xx = Cfg::fft(Kind::XX, 2, 3, 16, 1).with_channels(2);
-    vec![
-        Mix { partial: false, name: "XI+XI equal fft sizes", cfgs: vec![xi.clone(), xi.clone()] },
-        Mix { partial: false, name: "XO+XX equal fft sizes", cfgs: vec![xo.clone(), xx.clone()] },
-        Mix { partial: false, name: "SI+SI identical tables", cfgs: vec![si.clone(), si.clone()] },
-        Mix { partial: false, name: "SO+FI", cfgs: vec![so.clone(), fi.clone()] },
-        Mix { partial: false, name: "SI+FO+XI", cfgs: vec![si.clone(), fo.clone(), xi.clone()] },
-        Mix { partial: false, name: "XX+XI+XO equal fft sizes", cfgs: vec![xx, xi.clone(), xo] },
+    let mut v = vec![
+        Mix { partial: false, name: "XI+XI equal fft sizes".to_string(), cfgs: vec![xi.clone(), xi.clone()] },
+        Mix { partial: false, name: "XO+XX equal fft sizes".to_string(), cfgs: vec![xo.clone(), xx.clone()] },
+        Mix { partial: false, name: "SI+SI identical tables".to_string(), cfgs: vec![si.clone(), si.clone()] },
+        Mix { partial: false, name: "SO+FI".to_string(), cfgs: vec![so.clone(), fi.clone()] },
+        Mix { partial: false, name: "SI+FO+XI".to_string(), cfgs: vec![si.clone(), fo.clone(), xi.clone()] },
+        Mix { partial: false, name: "XX+XI+XO equal fft sizes".to_string(), cfgs: vec![xx, xi.clone(), xo] },
         // equal input block, different output block (a cache keyed too coarsely would collide)
-        Mix { partial: false, name: "XX 3->2 + XX 3->1 same input block", cfgs: vec![Cfg::fft(Kind::XX, 3, 2, 24, 1).with_channels(2), Cfg::fft(Kind::XX, 3, 1, 24, 1).with_channels(2)] },
-        Mix { partial: false, name: "XI 2->3 + XX 2->1 same input block", cfgs: vec![xi, Cfg::fft(Kind::XX, 2, 1, 16, 1).with_channels(2)] },
+        Mix { partial: false, name: "XX 3->2 + XX 3->1 same input block".to_string(), cfgs: vec![Cfg::fft(Kind::XX, 3, 2, 24, 1).with_channels(2), Cfg::fft(Kind::XX, 3, 1, 24, 1).with_channels(2)] },
+        Mix { partial: false, name: "XI 2->3 + XX 2->1 same input block".to_string(), cfgs: vec![xi, Cfg::fft(Kind::XX, 2, 1, 16, 1).with_channels(2)] },
         // instances that carry saved frames from call to call (chunk not a multiple of the block)
-        Mix { partial: false, name: "XI+XI with saved input frames", cfgs: vec![Cfg::fft(Kind::XI, 3, 2, 16, 1).with_channels(2), Cfg::fft(Kind::XI, 3, 2, 16, 1).with_channels(2)] },
-        Mix { partial: false, name: "XO+XO with saved output frames", cfgs: vec![Cfg::fft(Kind::XO, 2, 3, 10, 1).with_channels(2), Cfg::fft(Kind::XO, 2, 3, 10, 1).with_channels(2)] },
-        Mix { partial: false, name: "FO+FO identical", cfgs: vec![fo.clone(), fo.clone()] },
+        Mix { partial: false, name: "XI+XI with saved input frames".to_string(), cfgs: vec![Cfg::fft(Kind::XI, 3, 2, 16, 1).with_channels(2), Cfg::fft(Kind::XI, 3, 2, 16, 1).with_channels(2)] },
+        Mix { partial: false, name: "XO+XO with saved output frames".to_string(), cfgs: vec![Cfg::fft(Kind::XO, 2, 3, 10, 1).with_channels(2), Cfg::fft(Kind::XO, 2, 3, 10, 1).with_channels(2)] },
+        Mix { partial: false, name: "FO+FO identical".to_string(), cfgs: vec![fo.clone(), fo.clone()] },
         // identical sinc table sizes, different cutoff / window
-        Mix { partial: false, name: "SI+SI same table size different filter", cfgs: vec![si.clone(), { let mut c = si.clone(); c.ratio = 0.8; c.window = rubato::WindowFunction::Hann; c }] },
+        Mix { partial: false, name: "SI+SI same table size different filter".to_string(), cfgs: vec![si.clone(), { let mut c = si.clone(); c.ratio = 0.8; c.window = rubato::WindowFunction::Hann; c }] },
         // same oversampling factor, different interpolation order (per-thread tables keyed by the factor only)
-        Mix { partial: false, name: "SI Cubic + SI Quadratic same oversampling", cfgs: vec![si.clone(), { let mut c = si.clone(); c.interp = Interp::Quadratic; c }] },
-        Mix { partial: false, name: "SO Quadratic + SI Linear + SO Cubic same oversampling", cfgs: vec![{ let mut c = so.clone(); c.interp = Interp::Quadratic; c }, { let mut c = si.clone(); c.interp = Interp::Linear; c }, so.clone()] },
-        Mix { partial: false, name: "FI Cubic + FI Septic", cfgs: vec![fi.clone(), { let mut c = fi.clone(); c.degree = Degree::Septic; c }] },
+        Mix { partial: false, name: "SI Cubic + SI Quadratic same oversampling".to_string(), cfgs: vec![si.clone(), { let mut c = si.clone(); c.interp = Interp::Quadratic; c }] },
+        Mix { partial: false, name: "SO Quadratic + SI Linear + SO Cubic same oversampling".to_string(), cfgs: vec![{ let mut c = so.clone(); c.interp = Interp::Quadratic; c }, { let mut c = si.clone(); c.interp = Interp::Linear; c }, so.clone()] },
+        Mix { partial: false, name: "FI Cubic + FI Septic".to_string(), cfgs: vec![fi.clone(), { let mut c = fi.clone(); c.degree = Degree::Septic; c }] },
         // parameters that differ only slightly (a cache keyed on rounded floats would collide)
-        Mix { partial: false, name: "SI+SI cutoffs 3e-5 apart", cfgs: vec![si.clone(), { let mut c = si.clone(); c.f_cutoff += 3.0e-5; c }] },
-        Mix { partial: false, name: "SI+SO downsampling, ratios 5e-5 apart", cfgs: vec![{ let mut c = si.clone(); c.ratio = 0.91875; c }, { let mut c = so.clone(); c.ratio = 0.9187; c }] },
+        Mix { partial: false, name: "SI+SI cutoffs 3e-5 apart".to_string(), cfgs: vec![si.clone(), { let mut c = si.clone(); c.f_cutoff += 3.0e-5; c }] },
+        Mix { partial: false, name: "SI+SO downsampling, ratios 5e-5 apart".to_string(), cfgs: vec![{ let mut c = si.clone(); c.ratio = 0.91875; c }, { let mut c = so.clone(); c.ratio = 0.9187; c }] },
         // same type and ratios, different chunk sizes (state keyed without the chunk size would collide)
-        Mix { partial: false, name: "FI+FI chunk 16 and 24", cfgs: vec![fi.clone(), { let mut c = fi.clone(); c.chunk = 24; c }] },
-        Mix { partial: false, name: "FO+FO chunk 16 and 9", cfgs: vec![fo.clone(), { let mut c = fo.clone(); c.chunk = 9; c }] },
-        Mix { partial: false, name: "SI+SI chunk 24 and 7", cfgs: vec![si.clone(), { let mut c = si.clone(); c.chunk = 7; c }] },
-        Mix { partial: false, name: "SO+SO chunk 24 and 7", cfgs: vec![so.clone(), { let mut c = so.clone(); c.chunk = 7; c }] },
+        Mix { partial: false, name: "FI+FI chunk 16 and 24".to_string(), cfgs: vec![fi.clone(), { let mut c = fi.clone(); c.chunk = 24; c }] },
+        Mix { partial: false, name: "FO+FO chunk 16 and 9".to_string(), cfgs: vec![fo.clone(), { let mut c = fo.clone(); c.chunk = 9; c }] },
+        Mix { partial: false, name: "SI+SI chunk 24 and 7".to_string(), cfgs: vec![si.clone(), { let mut c = si.clone(); c.chunk = 7; c }] },
+        Mix { partial: false, name: "SO+SO chunk 24 and 7".to_string(), cfgs: vec![so.clone(), { let mut c = so.clone(); c.chunk = 7; c }] },
         // end-of-stream calls of instances with different channel counts (a shared scratch for the
         // padded input would be cleared for the caller's channels only)
-        Mix { partial: true, name: "FI 2ch + FI 1ch, partial calls", cfgs: vec![fi.clone(), fi.clone().with_channels(1)] },
-        Mix { partial: true, name: "FI 2ch + SO 3ch, partial calls", cfgs: vec![fi.clone(), so.clone().with_channels(3)] },
-        Mix { partial: true, name: "XI 2ch + XO 1ch, partial calls", cfgs: vec![Cfg::fft(Kind::XI, 2, 3, 32, 2).with_channels(2), Cfg::fft(Kind::XO, 2, 3, 48, 2).with_channels(1)] },
-        Mix { partial: false, name: "FO+FO ratios 3e-5 apart", cfgs: vec![fo.clone(), { let mut c = fo.clone(); c.ratio += 3.0e-5; c }] },
-    ]
+        Mix { partial: true, name: "FI 2ch + FI 1ch, partial calls".to_string(), cfgs: vec![fi.clone(), fi.clone().with_channels(1)] },
+        Mix { partial: true, name: "FI 2ch + SO 3ch, partial calls".to_string(), cfgs: vec![fi.clone(), so.clone().with_channels(3)] },
+        Mix { partial: true, name: "XI 2ch + XO 1ch, partial calls".to_string(), cfgs: vec![Cfg::fft(Kind::XI, 2, 3, 32, 2).with_channels(2), Cfg::fft(Kind::XO, 2, 3, 48, 2).with_channels(1)] },
+        Mix { partial: false, name: "FO+FO ratios 3e-5 apart".to_string(), cfgs: vec![fo.clone(), { let mut c = fo.clone(); c.ratio += 3.0e-5; c }] },
+    ];
+    v.extend(pool_pairs());
+    v
+}
+
+
+/// A pool of small configurations that differ from each other in one or two parameters at a
+/// time; every unordered pair (and every configuration with itself) becomes a two-instance mix.
+/// Shared state that is keyed by fewer parameters than it depends on shows as soon as two
+/// instances agree on the key and differ elsewhere - whatever the key is.
+fn pool() -> Vec<Cfg> {
+    let mut p = Vec::new();
+    for (kind, interp, os, ratio, chunk) in [
+        (Kind::SI, Interp::Cubic, 8usize, 1.2f64, 24usize),
+        (Kind::SI, Interp::Quadratic, 8, 1.2, 24),
+        (Kind::SI, Interp::Linear, 8, 1.2, 24),
+        (Kind::SI, Interp::Nearest, 8, 1.2, 24),
+        (Kind::SI, Interp::Cubic, 16, 1.2, 24),
+        (Kind::SI, Interp::Cubic, 8, 0.8, 24),
+        (Kind::SI, Interp::Cubic, 8, 1.2, 7),
+        (Kind::SO, Interp::Cubic, 8, 1.2, 24),
+        (Kind::SO, Interp::Quadratic, 8, 0.8, 7),
+    ] {
+        p.push(Cfg::sinc(kind, ratio, 2.0, chunk, 16, os, interp, Kernel::Dispatch).with_channels(2));
+    }
+    {
+        let mut c = Cfg::sinc(Kind::SI, 1.2, 2.0, 24, 16, 8, Interp::Cubic, Kernel::Dispatch).with_channels(2);
+        c.window = rubato::WindowFunction::Hann;
+        p.push(c);
+        let mut c = Cfg::sinc(Kind::SI, 1.2, 2.0, 24, 24, 8, Interp::Cubic, Kernel::Dispatch).with_channels(1);
+        c.f_cutoff = 0.9;
+        p.push(c);
+    }
+    for (kind, degree, ratio, chunk, ch) in [
+        (Kind::FI, Degree::Cubic, 0.8f64, 16usize, 2usize),
+        (Kind::FI, Degree::Septic, 0.8, 16, 2),
+        (Kind::FI, Degree::Cubic, 1.25, 16, 1),
+        (Kind::FO, Degree::Cubic, 0.8, 16, 2),
+        (Kind::FO, Degree::Linear, 0.8, 9, 3),
+    ] {
+        p.push(Cfg::fast(kind, ratio, 2.0, chunk, degree).with_channels(ch));
+    }
+    for (kind, a, b, chunk, sub, ch) in [
+        (Kind::XI, 2usize, 3usize, 32usize, 2usize, 2usize),
+        (Kind::XI, 3, 2, 16, 1, 2),
+        (Kind::XO, 2, 3, 48, 2, 2),
+        (Kind::XO, 2, 3, 10, 1, 1),
+        (Kind::XX, 2, 3, 16, 1, 2),
+        (Kind::XX, 3, 2, 24, 1, 2),
+        (Kind::XX, 3, 1, 24, 1, 2),
+    ] {
+        p.push(Cfg::fft(kind, a, b, chunk, sub).with_channels(ch));
+    }
+    p
+}
+
+fn pool_pairs() -> Vec<Mix> {
+    let p = pool();
+    let mut v = Vec::new();
+    for i in 0..p.len() {
+        for j in i..p.len() {
+            for partial in [false, true] {
+                // end-of-stream scripts only for pairs that differ in channel count or type
+                if partial && (p[i].channels == p[j].channels && p[i].kind == p[j].kind) {
+                    continue;
+                }
+                v.push(Mix { partial, name: format!("pool {}{} + {}", if partial { "(end of stream) " } else { "" }, p[i].short(), p[j].short()), cfgs: vec![p[i].clone(), p[j].clone()] });
+            }
+        }
+    }
+    v
 }
 
 /// All interleavings of k scripts of `m` steps each (as sequences of instance indices).
@@ -173,7 +243,9 @@ fn items(tier: Tier) -> Vec<Item> {
     let mut v = Vec::new();
     for (i, m) in mixes().iter().enumerate() {
         let k = m.cfgs.len();
-        if k == 2 {
+        if k == 2 && m.name.starts_with("pool ") && tier == Tier::Quick {
+            v.push(Item { mix: i, migration: Migration::RoundRobin, part: 0, parts: 1 });
+        } else if k == 2 {
             v.push(Item { mix: i, migration: Migration::All, part: 0, parts: 1 });
         } else if tier == Tier::Quick {
             v.push(Item { mix: i, migration: Migration::RoundRobin, part: 0, parts: 1 });
@@ -302,7 +374,7 @@ fn run_schedules(mix: &Mix, item: &Item, journal: Option<&JournalFile>) -> Resul
     // ---- supplementary, sampling (labelled so): free-running threads behind a barrier
     let mut free_rounds = 0u64;
     if item.part == 0 {
-        let rounds = 20;
+        let rounds = if mix.name.starts_with("pool ") { 2 } else { 20 };
         let nthreads = 16;
         for _ in 0..rounds {
             let barrier = std::sync::Arc::new(std::sync::Barrier::new(nthreads));
